@@ -445,6 +445,8 @@ def gen(rng, tier, index):
         add_overrun(rng, scn)
     if rng.random() < P_CALLER_TE:
         add_caller_te(rng, scn)
+    if rng.random() < P_SREADER:
+        add_sreader(rng, scn)
     return scn
 
 
@@ -829,6 +831,56 @@ def caller_te(rq):
     return any(n.lower() == "transfer-encoding" for n, _ in rq["headers"])
 
 
+# ---- extension 9: a StreamReader given as body (relaying one message's body stream as the body of another)
+P_SREADER = 0.10
+# the reader's buffer limit (its low-water mark; high-water = 2 x limit): what read_bufsize is to a message's stream
+SREADER_LIMITS = [1, 8, 64, 64, 1024, 4096, 65536]
+SREADER_LF = ["block", "block", "none", "none", "rich"]
+SREADER_FEED = ["before", "task", "task"]
+
+
+def sreader_bytes(body):
+    """the relayed bytes: the ordinary block pattern (line feeds a few hundred bytes apart), the same without any LF
+    (binary / compressed / base64-less data), or with an LF every few bytes (text with short lines)"""
+    data = bbytes(body["k"], body["size"])
+    lf = body.get("lf", "block")
+    if lf == "none":
+        return data.replace(b"\n", b"N")
+    if lf == "rich":
+        return data.replace(b"\n", b"N").replace(b"a", b"\n").replace(b"\x07", b"\n").replace(b"\x80", b"\n\n")
+    return data
+
+
+def add_sreader(rng, scn):
+    """One or two exchanges carry an aiohttp.StreamReader as body - data=<StreamReader> on the client,
+    web.Response(body=<StreamReader>) in the handler (the registered StreamReaderPayload kind: what a proxy does with
+    request.content / resp.content).  The reader is filled before it is handed over or by a producer task while the
+    message is being written, in pieces, with sizes below, at and far above its buffer marks."""
+    heavy = _scn_biggest(scn) >= 65535
+    free = [i for i, ex in enumerate(scn["exchanges"])
+            if not ex["req"].get("expect_refuse") and early_mode(ex["req"]) is None and not caller_te(ex["req"])
+            and not ex["resp"]["body"].get("surplus") and file_range_expect(ex["req"], ex["resp"]) is None]
+    rng.shuffle(free)
+    for i in sorted(free[:rng.choice([1, 1, 2])]):
+        ex = scn["exchanges"][i]
+        side = rng.choice(["req", "req", "resp", "resp", "both"])
+        for sd in (("req", "resp") if side == "both" else (side,)):
+            size = pick_size(rng, heavy)
+            if not heavy and size >= 65535:
+                size = rng.choice([300] + SIZES_MID)
+            body = {"kind": "sreader", "k": rng.randrange(251), "size": size, "pieces": gen_pieces(rng, size),
+                    "delay": rng.choice([0, 0, 1, 3]), "limit": rng.choice(SREADER_LIMITS), "lf": rng.choice(SREADER_LF),
+                    "feed": rng.choice(SREADER_FEED)}
+            if sd == "req":
+                rq = ex["req"]
+                if rq["method"].upper() == "HEAD":
+                    rq["method"] = "POST"
+                rq["body"] = body
+                rq["json_api"] = False
+            else:
+                ex["resp"]["body"] = body
+
+
 def chunked_complete(data):
     """does this byte string hold a complete chunked body (RFC 9112 7.1: chunks, last-chunk, trailer section, CRLF)?"""
     pos, n = 0, len(data)
@@ -1032,6 +1084,10 @@ def shrink(scn):
                         yield _with_ex(scn, i, dict(ex, **{side: dict(spec, body=nb)}))
             if b.get("pieces") and len(b["pieces"]) > 1:
                 yield _with_ex(scn, i, dict(ex, **{side: dict(spec, body=dict(b, pieces=[sum(b["pieces"])]))}))
+            if b["kind"] == "sreader":
+                for k_, v_ in (("feed", "before"), ("delay", 0), ("lf", "none"), ("limit", 65536), ("limit", 1024), ("limit", 64)):
+                    if b[k_] != v_ and not (k_ == "limit" and b[k_] <= v_):
+                        yield _with_ex(scn, i, dict(ex, **{side: dict(spec, body=dict(b, **{k_: v_}))}))
             if b["kind"] == "rawio":
                 if b.get("wrap"):
                     yield _with_ex(scn, i, dict(ex, **{side: dict(spec, body=dict(b, wrap=None))}))
@@ -1099,6 +1155,8 @@ def req_body_bytes(body):
         return b""
     if kind in ("bytes", "bytearray", "agen", "bio", "rawio"):
         return bbytes(body["k"], body["size"])
+    if kind == "sreader":
+        return sreader_bytes(body)
     if kind == "str":
         return btext(body["k"], body["size"]).encode("utf-8")
     if kind == "payload":
@@ -1119,7 +1177,7 @@ def req_default_ctype(req):
     kind = req["body"]["kind"]
     if kind == "none":
         return "application/octet-stream" if req["method"].upper() in ("POST", "PUT", "PATCH") else None
-    if kind in ("bytes", "bytearray", "agen", "bio", "rawio"):
+    if kind in ("bytes", "bytearray", "agen", "bio", "rawio", "sreader"):
         return "application/octet-stream"
     if kind == "str":
         return "text/plain; charset=utf-8"
@@ -1147,6 +1205,8 @@ def resp_body_bytes(body):
         return btext(body["k"], body["size"]).encode("utf-8")
     if kind == "json":
         return json.dumps(json_obj(body)).encode("utf-8")
+    if kind == "sreader":
+        return sreader_bytes(body)
     return bbytes(body["k"], body["size"])
 
 
@@ -1499,6 +1559,50 @@ def run(scn, ch, log=False):
                     buf += chunk
             return bytes(buf)
 
+        class FeedGate:
+            """Stands in for the connection a StreamReader belongs to (the reader only tells it to stop / go on
+            delivering): the producer task below waits while the reader holds it paused."""
+            connected = True
+
+            def __init__(self):
+                self.paused, self.waiter = False, None
+
+            def pause_reading(self):
+                self.paused = True
+                state["sreader_paused"] = state.get("sreader_paused", 0) + 1
+
+            def resume_reading(self, resume_parser=True):
+                self.paused = False
+                w_, self.waiter = self.waiter, None
+                if w_ is not None and not w_.done():
+                    w_.set_result(None)
+
+        def make_sreader(b, data):
+            gate = FeedGate()
+            reader = aiohttp.StreamReader(gate, b["limit"], loop=loop)
+            pieces = split_pieces(data, b["pieces"])
+            state["sreader_made"] = state.get("sreader_made", 0) + 1
+            if len(data) > 2 * b["limit"]:
+                state["sreader_over_high_water"] = state.get("sreader_over_high_water", 0) + 1
+            loop.note("sreader", f"{len(data)}:limit{b['limit']}:{b['lf']}:{b['feed']}")
+            if b["feed"] == "before":
+                for p in pieces:
+                    reader.feed_data(p)
+                reader.feed_eof()
+                return reader
+
+            async def feeder():
+                for p in pieces:
+                    await asyncio.sleep(b["delay"] * TICK)
+                    while gate.paused:
+                        gate.waiter = loop.create_future()
+                        await gate.waiter
+                    reader.feed_data(p)
+                reader.feed_eof()
+
+            state.setdefault("sreader_tasks", []).append(loop.create_task(feeder()))
+            return reader
+
         async def agen_pieces(pieces, delay):
             for p in pieces:
                 if delay:
@@ -1639,6 +1743,8 @@ def run(scn, ch, log=False):
                 resp = web.Response(body=make_rawio(b, data + surplus_bytes(b), count_short_read), **kw)
             elif kind == "agen":
                 resp = web.Response(body=agen_pieces(producer_pieces(b, data), b["delay"]), **kw)
+            elif kind == "sreader":
+                resp = web.Response(body=make_sreader(b, data), **kw)
             elif kind == "str_payload":
                 resp = web.Response(body=aio_payload.StringPayload(btext(b["k"], b["size"])), **kw)
             elif kind == "file":
@@ -1730,6 +1836,8 @@ def run(scn, ch, log=False):
                 return make_rawio(b, bbytes(b["k"], b["size"]), count_short_read)
             if kind == "agen":
                 return agen_pieces(split_pieces(bbytes(b["k"], b["size"]), b["pieces"]), 0)
+            if kind == "sreader":
+                return make_sreader(b, sreader_bytes(b))
             if kind == "payload":
                 kw = {"content_type": b["ctype"]} if b["ctype"] else {}
                 if b["ptype"] == "string":
@@ -2752,6 +2860,8 @@ def run(scn, ch, log=False):
             probes["overrun_then_next_on_same_conn"] = sum(
                 1 for r in seen if r.get("overrun") and any(q["conn"] == r["conn"] and q["step"] > r["step"] for q in seen))
         probes["rawio_short_reads"] = state["short_reads"]
+        for k_ in ("sreader_made", "sreader_over_high_water", "sreader_paused"):
+            probes[k_] = state.get(k_, 0)
         probes["range_judged"] = state.get("range_judged", 0)
         probes["range_206"] = state.get("range_206", 0)
         if scn.get("session_headers"):
@@ -2789,7 +2899,8 @@ def run(scn, ch, log=False):
                      + ("+range" if any(file_range_expect(ex["req"], ex["resp"]) is not None for ex in exchanges) else "")
                      + ("+early" if any(early_mode(ex["req"]) is not None for ex in exchanges) else "")
                      + ("+overrun" if any(ex["resp"]["body"].get("surplus") for ex in exchanges) else "")
-                     + ("+callerte" if any(caller_te(ex["req"]) for ex in exchanges) else ""),
+                     + ("+callerte" if any(caller_te(ex["req"]) for ex in exchanges) else "")
+                     + ("+sreader" if any(ex[sd_]["body"]["kind"] == "sreader" for ex in exchanges for sd_ in ("req", "resp")) else ""),
         }
         if log:
             res["event_log"] = loop.event_log
